@@ -21,6 +21,20 @@
 )]
 #![allow(clippy::uninlined_format_args)]
 
+#[cfg(deadpool_verif)]
+macro_rules! verif_point {
+    ($label:literal) => {
+        crate::verif::point($label)
+    };
+}
+#[cfg(not(deadpool_verif))]
+macro_rules! verif_point {
+    ($label:literal) => {};
+}
+
+#[cfg(deadpool_verif)]
+pub mod verif;
+
 #[cfg(feature = "managed")]
 #[cfg_attr(docsrs, doc(cfg(feature = "managed")))]
 pub mod managed;
